@@ -332,13 +332,30 @@ ASTNode *StatementParser::parseTypedefTypeStatement(
             parser_->advance();
         }
 
+        // 配列次元をスキップ: `T[3] a = ...;` (T は型パラメータや前方参照の型)
+        // `a[i] = v;` のような式文は、']' の後に識別子が続かないので
+        // 宣言とは判定されない
+        bool has_array_dimensions = false;
+        while (parser_->check(TokenType::TOK_LBRACKET)) {
+            has_array_dimensions = true;
+            int bracket_depth = 0;
+            do {
+                if (parser_->check(TokenType::TOK_LBRACKET)) {
+                    bracket_depth++;
+                } else if (parser_->check(TokenType::TOK_RBRACKET)) {
+                    bracket_depth--;
+                }
+                parser_->advance();
+            } while (bracket_depth > 0 && !parser_->isAtEnd());
+        }
+
         // 次が識別子で、その後に ; または = または < または (
         // があれば型宣言の可能性が高い
         if (parser_->check(TokenType::TOK_IDENTIFIER)) {
             parser_->advance(); // 識別子をスキップ
 
             // v0.11.0: <があれば型パラメータ付き関数の可能性
-            if (parser_->check(TokenType::TOK_LT)) {
+            if (!has_array_dimensions && parser_->check(TokenType::TOK_LT)) {
                 // '<' から '>' までスキップ
                 parser_->advance();
                 while (!parser_->check(TokenType::TOK_GT) &&
@@ -350,9 +367,11 @@ ASTNode *StatementParser::parseTypedefTypeStatement(
                 }
             }
 
+            // 配列次元付きの場合は変数宣言 (`T[3] a;` / `T[3] a = ...;`) のみ
             if (parser_->check(TokenType::TOK_SEMICOLON) ||
                 parser_->check(TokenType::TOK_ASSIGN) ||
-                parser_->check(TokenType::TOK_LPAREN)) {
+                (!has_array_dimensions &&
+                 parser_->check(TokenType::TOK_LPAREN))) {
                 looks_like_type_declaration = true;
                 // 実行時に型が解決される可能性があるため、型として扱う
                 is_struct_type = true; // 構造体型として仮定
